@@ -7,6 +7,7 @@ Serves C01 (monitor + corrupt-mapping faults), C02, C03, C12.
 from __future__ import annotations
 
 import json
+import math
 import os
 
 import numpy as np
@@ -97,21 +98,21 @@ def gen_plan(prop, run_seed, tier):
         plan["prepare"] = dict(fraction=w.choice([0.0, 0.3]), seed=w.randrange(2**31)) if w.random() < 0.3 else None
         n_steps = s.randint(2, 16 if tier == "quick" else 40)
         ops = ["reveal"] * 6 + ["reveal_cli"] * 2 + ["mask", "mask", "unmask", "save_load", "save_load",
-                                                      "set_observed", "set_observed", "set_observed", "construct", "construct"]
+                                                      "set_observed", "set_observed", "set_observed", "construct", "construct", "perm_ctor"]
     elif prop == "C02":
         spec = gen.gen_screen(w, alphabet=w.choice(["tricky", "tricky", "ascii"]), observed_rate=w.choice([0.3, 0.5, 0.5, 0.7, 0.0, 1.0]))
         _sprinkle_special_obs(w, spec)
         plan["screen"] = spec
         plan["prepare"] = dict(fraction=w.choice([0.2, 0.5, 0.5, 0.8, 1.0]), seed=w.randrange(2**31)) if w.random() < 0.6 else None
         n_steps = s.randint(2, 10 if tier == "quick" else 30)
-        ops = ["save_load"] * 6 + ["space_save_load"] * 2 + ["reveal", "mask", "unmask", "split", "set_observed", "merge_plates", "merge_plates"]
+        ops = ["save_load"] * 6 + ["space_save_load"] * 2 + ["reveal", "mask", "unmask", "split", "set_observed", "merge_plates", "merge_plates", "perm_ctor", "perm_ctor"]
     else:  # C01
         spec = gen.gen_screen(w, alphabet=w.choice(["tricky", "tricky", "ascii"]))
         plan["screen"] = spec
         plan["prepare"] = dict(fraction=w.choice([0.2, 0.5, 1.0]), seed=w.randrange(2**31)) if w.random() < 0.7 else None
         n_steps = s.randint(2, 10 if tier == "quick" else 30)
         ops = ["save_load"] * 2 + ["reveal", "mask", "unmask", "split", "split", "merge_plates", "merge_plates",
-                                    "corrupt_mapping", "corrupt_mapping", "corrupt_mapping", "resplit_ctor"]
+                                    "corrupt_mapping", "corrupt_mapping", "corrupt_mapping", "resplit_ctor", "perm_ctor", "perm_ctor"]
     steps = []
     for _ in range(n_steps):
         op = s.choice(ops)
@@ -135,6 +136,8 @@ def gen_plan(prop, run_seed, tier):
             st["inplace"] = s.random() < 0.7
         if op == "construct":
             st["kind"] = s.choice(["mixed", "obs_no_mask", "no_obs", "mask_no_obs"])
+        if op == "perm_ctor":
+            st["extra"] = s.random() < 0.4
         steps.append(st)
     plan["steps"] = steps
     return plan
@@ -821,6 +824,69 @@ def op_resplit_ctor(ctx, st, t):
         del ctx.pool[2 if len(ctx.pool) > 3 else 0]
 
 
+def op_perm_ctor(ctx, st, t):
+    """Construct a Screen from a live screen's rows with a HAND-BUILT mapping: a legal one (dense ids, covers the
+    rows, control cells at the sentinel) whose ids are a random permutation rather than the sorted-unique
+    numbering batchie would choose itself, listed in shuffled order, covering exactly the rows or a superset.
+    Everything later in the history (save/load, reveal, mask, merge ...) must keep that numbering."""
+    from batchie.data import Screen
+
+    live = ctx.pool[t]
+    rnd = sub_rng(st["sub"], "permctor")
+    s = live.screen
+    if s.size == 0:
+        return
+    control = str(s.control_treatment_name)
+    conds = sorted({(str(n), float(d)) for n, d in zip(np.asarray(s.treatment_names).ravel().tolist(),
+                                                         np.asarray(s.treatment_doses).ravel().tolist())},
+                   key=lambda x: (x[0], x[1], math.copysign(1.0, x[1])))
+    # -0.0 and 0.0 are one dose; keep one entry per (name, dose value)
+    seen, uniq = set(), []
+    for n, d in conds:
+        k = ref.tkey(n, d)
+        if k not in seen:
+            seen.add(k)
+            uniq.append((n, d))
+    samples = sorted({str(x) for x in np.asarray(s.sample_names).tolist()})
+    if st.get("extra"):
+        for k in range(rnd.randint(1, 3)):
+            cand = (f"zz_extra{k}", 1.0 + k)
+            if ref.tkey(*cand) not in seen:
+                uniq.append(cand)
+            if f"zz_extra_s{k}" not in samples:
+                samples.append(f"zz_extra_s{k}")
+    nonctl = [c for c in uniq if not ref.is_control_cell(c[0], c[1], control)]
+    ids = list(range(len(nonctl)))
+    rnd.shuffle(ids)
+    tmap = {c: i for c, i in zip(nonctl, ids)}
+    entries = [(n, d, tmap.get((n, d), -1)) for n, d in uniq]
+    rnd.shuffle(entries)
+    sids = list(range(len(samples)))
+    rnd.shuffle(sids)
+    sentries = list(zip(samples, sids))
+    rnd.shuffle(sentries)
+    tm = (np.array([e[0] for e in entries], dtype=str), np.array([e[1] for e in entries], dtype=float),
+          np.array([e[2] for e in entries], dtype=int))
+    sm = (np.array([e[0] for e in sentries], dtype=str), np.array([e[1] for e in sentries], dtype=int))
+    try:
+        new = Screen(treatment_names=s.treatment_names.copy(), treatment_doses=s.treatment_doses.copy(),
+                     sample_names=s.sample_names.copy(), plate_names=s.plate_names.copy(),
+                     observations=s.observations.copy(), observation_mask=s.observation_mask.copy(),
+                     control_treatment_name=s.control_treatment_name, treatment_mapping=tm, sample_mapping=sm)
+    except Exception as e:
+        ctx.log.ev("permctor-raised", type(e).__name__)
+        ctx.violation(f"{ctx.prop}.legal-mapping-rejected", "Screen.__init__",
+                      f"constructor rejected a dense mapping that covers the rows (ids permuted, entries shuffled): {e!r}")
+        return
+    ctx.stats.probe("hand_built_permuted_mapping")
+    sd = {n: int(i) for n, i in sentries}
+    td = {ref.tkey(n, d): int(i) for n, d, i in entries}
+    ctx.pool.append(Live(new, ref.content_rows(s), live.lineage_sizes, (sd, td), live.tag + "+perm"))
+    while len(ctx.pool) > 8:
+        del ctx.pool[2 if len(ctx.pool) > 3 else 0]
+    ctx.log.ev("permctor", len(entries), len(sentries))
+
+
 def _private_copy(ctx, live):
     """In-place operations are applied to an un-aliased copy: reveal/mask results share
     their arrays with the screen they were derived from, and no property speaks about
@@ -1125,6 +1191,7 @@ OPS = {
     "merge_plates": op_merge_plates,
     "set_observed": op_set_observed,
     "construct": op_construct,
+    "perm_ctor": op_perm_ctor,
     "corrupt_mapping": op_corrupt_mapping,
 }
 
